@@ -20,6 +20,19 @@ JudgeDyn(e) ==
                   <<inScope => (e.dyn_bytes.ok = 1 /\ e.dyn_bytes.bytes = e.static_bytes), "dyn_enc">>,
                   <<inScope => (e.dyn_json.ok = 1 /\ JsonMatch(jexp, e.dyn_json.json)), "dyn_dec">> >>)
   IN [ok |-> b = <<>>, exp |-> [bad |-> b, want |-> [in_scope |-> inScope, bytes |-> e.static_bytes, json |-> jexp]]]
+\* C17 on a concrete Rust type under its own T::SCHEMA. The specification obtains the value by parsing the static bytes
+\* under the schema's shape (Wire!Dec); the JSON form is what serde_json::to_value returned (environment). If the schema
+\* does not even parse the static encoding of the value, dynamic decoding cannot yield its JSON form: a violation as well.
+JudgeDynT(e) ==
+  LET sh == ShapeOf(e.schema)
+      d == Dec(sh, e.static_bytes, 0)
+      parsed == d.ok /\ d.pos = Len(e.static_bytes)
+      inScope == ~parsed \/ Unamb(sh, d.v)
+      b == Bad(<< <<e.tree.c # "error" /\ EncTree(e.tree) = e.static_bytes, "static">>,
+                  <<~Panicked(e.dyn_bytes) /\ ~Panicked(e.dyn_json), "panic">>,
+                  <<inScope => (parsed /\ e.dyn_bytes.ok = 1 /\ e.dyn_bytes.bytes = e.static_bytes), "dyn_enc">>,
+                  <<inScope => (parsed /\ e.dyn_json.ok = 1 /\ JEq(e.dyn_json.json, e.json)), "dyn_dec">> >>)
+  IN [ok |-> b = <<>>, exp |-> [bad |-> b, want |-> [in_scope |-> inScope, parsed |-> parsed, bytes |-> e.static_bytes, json |-> e.json]]]
 DynAllocBound(e) == 256 * (Len(e.input) + e.schema_size + 16)
 JudgeSer(e) ==
   LET accepted == e.res.ok = 1
@@ -46,6 +59,7 @@ JudgeDe(e) ==
   IN [ok |-> b = <<>>, exp |-> [bad |-> b, want |-> [alloc_bound |-> DynAllocBound(e), zw_seq |-> ZwSeq(ShapeOf(e.schema))]]]
 Judge(e) ==
   CASE e.op = "dyn" -> JudgeDyn(e)
+    [] e.op = "dyn_t" -> JudgeDynT(e)
     [] e.op = "dyn_ser" -> JudgeSer(e)
     [] e.op = "dyn_de" -> JudgeDe(e)
     [] OTHER -> [ok |-> FALSE, exp |-> [bad |-> <<"crash">>, want |-> "no action of the specification matches this event"]]
